@@ -32,9 +32,57 @@ TII = "tx3c::tii::"
 _KEEP = []
 
 
+_F = [None]
+
+
+def _iter_elements(F, f, du, x):
+    """origins of what an iterator hands out, when the value `x` is the result of `next()` on `something.map(closure)`: the
+    matching component of the closure's returned value (inside the closure).  None when the iterator is not of that shape."""
+    out = []
+    proj = [p for p in x.proj if not p.startswith(" as ")]
+    # (next() as Some).0 is the item; further .N select a tuple component of it
+    comp = proj[1:] if proj and proj[0] == ".0" else None
+    if comp is None:
+        return None
+    srcs = mir.provenance(f, du, x.term["args"][0], transparent_extra=("std::iter::IntoIterator::into_iter", "std::iter::Iterator::by_ref"))
+    for src in srcs:
+        if not (src.kind == "call" and src.callee == "std::iter::Iterator::map" and len(src.term["args"]) > 1):
+            return None
+        clos = [o.rv["closure"] for o in mir.provenance(f, du, src.term["args"][1]) if o.kind == "agg" and o.rv.get("closure") in F.fns]
+        if not clos:
+            return None
+        for cp in clos:
+            c = F.fns[cp]
+            dc = mir.DefUse(c)
+            for bi, si, st in mir.stmts(c):
+                if st["lhs"]["l"] != 0 or st["lhs"]["p"]:
+                    continue
+                rv = st["rv"]
+                if comp and comp[0][1:].isdigit() and rv["k"] == "agg" and "tuple" in rv and int(comp[0][1:]) < len(rv["ops"]):
+                    out.append((c, dc, rv["ops"][int(comp[0][1:])]))
+                elif not comp and rv["k"] == "use":
+                    out.append((c, dc, rv["op"]))
+                else:
+                    return None
+    return out or None
+
+
 def lowered(f, du, op):
     """does the operand derive from a to_lowercase() call?  (True / False, description)"""
     o = mir.provenance(f, du, op, stop_at_calls=lambda t: "to_lowercase" in mir.callee_of(t))
+    F = _F[0]
+    if F is not None and o and any(x.kind == "call" and x.callee.endswith("Iterator::next") for x in o):
+        # names handed over through an iterator the caller prepared (`params.map(|p| (p.name.to_lowercase(), ..))`)
+        good = True
+        for x in o:
+            if x.kind == "call" and x.callee.endswith("Iterator::next"):
+                el = _iter_elements(F, f, du, x)
+                if el is None or not all(lowered(c, dc, eop)[0] for c, dc, eop in el):
+                    good = False
+            elif not (x.kind == "call" and "to_lowercase" in x.callee):
+                good = False
+        if good:
+            return True, "to_lowercase() in the iterator the caller hands over"
     if o and all(x.kind == "call" and "to_lowercase" in x.callee for x in o):
         return True, "to_lowercase()"
     if o and all(x.kind == "const" and "str" in x.const and x.const["str"] == x.const["str"].lower() for x in o):
@@ -52,11 +100,12 @@ def f_norm(F, res):
     # Constants are schema vocabulary; the transactions / profiles maps are keyed by transaction and profile names, which
     # the IR does not normalise (recognised by role: the map flows into TiiFile.transactions / TiiFile.profiles).
     E0 = F.fn(TII + "emit_tii")
+    _F[0] = F
 
     def want(t, callee):
         return callee["crate"] == "tx3c" and not callee.get("impl_trait") and not callee.get("trait_default") and len(callee["blocks"]) <= 400
     _KEEP.append(want)
-    E = mir.inline_calls(F, E0, want=want, depth=3)
+    E = mir.inline_calls(F, E0, want=want, depth=5, max_blocks=6000)
     bodies = [E] + [c for c in F.fns.values() if c["crate"] == "tx3c" and not is_derive(c) and c["path"] != E0["path"] and c["path"] not in set(E.get("inlined", []))]
     n = 0
     for f in bodies:
@@ -90,9 +139,10 @@ def f_norm(F, res):
             else:
                 res.add([finding("F-NORM", key, w, "a name is published in the TII verbatim (%s) while the IR requires it lower-cased: a client supplying exactly what the TII declares is told the argument is missing" % why[:100])])
     res.count("TII key sites", n)
-    res.floor("TII key sites", n, 7)
+    res.floor("TII key sites", n, 4)
     # the server looks names up verbatim in find_params(tir)
-    g = F.fn("tx3_resolver::trp::parse_resolve_request")
+    from ..common import with_helpers
+    g = with_helpers(F, "tx3_resolver::trp::parse_resolve_request")
     du = mir.DefUse(g)
     gets = [(bi, t) for bi, t in mir.calls(g) if (t.get("callee") or "").endswith("BTreeMap::<K, V, A>::get")]
     key = "tx3_resolver::trp::parse_resolve_request|lookup is verbatim"
@@ -153,7 +203,8 @@ def f_embed(F, res):
         else:
             res.add([finding("F-EMBED", key2, where(f, s["line"]), "the envelope's version string is not the one returned by to_bytes")])
     # the transactions map key is the verbatim tx name, the same the workspace stored
-    ws = F.fn("tx3_lang::facade::Workspace::lower")
+    from ..common import with_helpers
+    ws = with_helpers(F, "tx3_lang::facade::Workspace::lower")
     du2 = mir.DefUse(ws)
     ins = [(bi, t) for bi, t in mir.calls(ws) if (t.get("callee") or "").endswith("HashMap::<K, V, S, A>::insert")]
     key3 = "tx3_lang::facade::Workspace::lower|IR stored under tx.name.value"
